@@ -147,7 +147,7 @@ const (
 type c13operand struct {
 	v    *big.Int
 	name string
-	reps []string // representations available for this value
+	reps []string          // representations available for this value
 	frag map[string][]byte // script fragment per script representation
 }
 
@@ -676,8 +676,8 @@ func TestVerif_C13(t *testing.T) {
 	defer r.Finish()
 	defer c13flush(r)
 	r.Rule("for every opcode in {ADD SUB MUL DIV MOD AND OR XOR MIN MAX SHL SHR LT GT LTE GTE NUMEQUAL NUMNOTEQUAL BOOLAND BOOLOR EQUAL INC DEC SIGN NEGATE ABS NZ INVERT NOT WITHIN}: (a) all tuples over a boundary alphabet (0, +-1.., +-2^k and +-2^k+-1 for k in {31,32,62,63,64,127,128,255,256}, sqrt(2^63) neighbours, shift counts 63..65/255..257, values beyond the bound) x every combination of operand representations {typed int/bigint on the stack, minimal byte array pushed by script, byte array with redundant sign byte, 33-byte padded array, PUSHM1..PUSH16, bool}; (b) all pairs in [-R,R]^2 and all unary operands in [-U,U]; each executed on a real neovm.Executor (operands loaded, then Execute runs the opcode) and compared with a math/big oracle: exact value, or FAULT iff an operand or the result has magnitude >= 2^256 / division by zero / negative shift count; distinct = (opcode, outcome class)")
-	R := int64(r.Pick(130, 130))
-	U := int64(r.Pick(70000, 300000))
+	R := int64(r.Pick(100, 130))
+	U := int64(r.Pick(33000, 300000))
 	r.Bound(fmt.Sprintf("boundary alphabet %d values (pairs, and triples over a 22-value subset for WITHIN); small pairs [-%d,%d]^2 in %s representation pairs; unary [-%d,%d]", len(c13boundary()), R, R, map[bool]string{true: "2 (int/int, bytes/bytes)", false: "4 ({int,bytes}^2)"}[r.Quick()], U, U))
 	r.Assume("comparison and boolean opcodes (LT GT LTE GTE NUMEQUAL NUMNOTEQUAL BOOLAND BOOLOR NOT EQUAL) read operands without the 32-byte check on purpose (code comments: 'lift the 32byte limit', 'avoid hard-fork'): for operands beyond the bound the oracle accepts a fault or the exact answer, never a wrong one")
 	r.Assume("shift counts above 256: a fault or the exact value (0 / -1) is accepted")
@@ -806,7 +806,7 @@ func TestVerif_C13(t *testing.T) {
 		if r.Expired() {
 			return
 		}
-		if r.Quick() && (small[i].v.Int64() < -20 || small[i].v.Int64() > 70) {
+		if r.Quick() && (small[i].v.Int64() < -10 || small[i].v.Int64() > 40) {
 			continue
 		}
 		for j := range bops {
